@@ -517,12 +517,11 @@ impl Quantity {
             return QuantityOrdering::IncompatibleUnits;
         };
 
-        let cmp = self_converted
-            .value
-            .partial_cmp(&other_converted.value)
-            .expect("unexpectedly got a None partial_cmp from non-NaN arguments");
-
-        QuantityOrdering::Ok(cmp)
+        // The conversion itself can produce NaN (e.g. inf / inf for huge conversion factors)
+        match self_converted.value.partial_cmp(&other_converted.value) {
+            Some(cmp) => QuantityOrdering::Ok(cmp),
+            None => QuantityOrdering::NanOperand,
+        }
     }
 
     /// Pretty prints with the given format options and optional dtoa config override.
